@@ -278,7 +278,7 @@ def _go_history(rng, f, lay):
         res = res.to_frame_go()
     k_src, k_res = rng.choice([(1, 2), (2, 1), (0, 2), (2, 0), (1, 3)])
     for target, k, tag in ((src, k_src, 's'), (res, k_res, 'r')):
-        dt = target.dtypes.values[0]
+        dt = target.dtypes.values[0] if target.shape[1] else src.dtypes.values[0]          # (a derivation may have dropped every column)
         for j in range(k):
             target['%s_new%d' % (tag, j)] = np.full(len(target.index), j + 7).astype(dt)
     return (src if rng.random() < 0.5 else res), name
